@@ -569,6 +569,14 @@ Definition attr_ok (s : sstate) (dm : dump) (c : child) (a : Z) : bool :=
   | CDir y => match nth_error (dm_dirs dm) y with Some (ch, _) => Z.eqb a (Z.of_N ch) | None => false end
   end.
 
+Definition attrs_part (o : op) (r : out) (s' : sstate) (dm : dump) : bool :=
+  match o with
+  | OVReadDir _ _ _ => forallb (fun e => attr_ok s' dm (r_child e) (r_attr e)) (o_entries r)
+  | OVLookup _ _ | OVMkdir _ _ =>
+    match o_child r with Some (CDir y) => attr_ok s' dm (CDir y) (o_attr r) | _ => true end
+  | _ => true
+  end.
+
 (* The oracle check of one step; "" = accepted. *)
 Definition oracle (x : expect) (s' : sstate) (o : op) (r : out) (dm : dump) : string :=
   if x_riod x && status_eqb (o_status r) SOK then "C13:rename-into-own-descendant" else
@@ -579,11 +587,7 @@ Definition oracle (x : expect) (s' : sstate) (o : op) (r : out) (dm : dump) : st
   if negb (match x_nlink x with Some n => Z.eqb n (o_attr r) | None => true end)
   then "C13:linkcount:" ++ op_name o else
   if negb (listing_ok (x_listing x) r) then "C13:listing:" ++ op_name o else
-  if negb (match o with
-           | OVReadDir _ _ _ => forallb (fun e => attr_ok s' dm (r_child e) (r_attr e)) (o_entries r)
-           | OVLookup _ _ | OVMkdir _ _ =>
-             match o_child r with Some (CDir y) => attr_ok s' dm (CDir y) (o_attr r) | _ => true end
-           | _ => true end)
+  if negb (attrs_part o r s' dm)
   then "C13:attributes:" ++ op_name o else "".
 
 (* ---- change counters ----------------------------------------------------- *)
